@@ -55,6 +55,12 @@ def model_check(res, tier):
         if st["violated"]:
             res.drift.append({"model": "Decoder fail=%d" % f, "violated": st["violated"]})
         res.add_mc("Decoder R=%d len=%d pk=%d fail=%d cb<=%d" % (r, ln, pk, f, maxcb), st)
+    # the shortest streams: the first index is already the end of the audio
+    for ln0 in (0, 1):
+        st = tlc_check("MC_Decoder.tla", write_cfg("Decoder_len%d.cfg" % ln0, cfg(3, ln0, 2, 0, 2, 4, False, MCINV)), workers=8, timeout=1200, tag="c10mc")
+        if st["violated"]:
+            res.drift.append({"model": "Decoder len=%d" % ln0, "violated": st["violated"]})
+        res.add_mc("Decoder R=3 len=%d pk=2 fail=0 cb<=4" % ln0, st)
     for w, f in (("W_Starved", 0), ("W_Wait", 0), ("W_Err", 3)):
         tlc_check("MC_Decoder.tla", write_cfg("Decoder_%s.cfg" % w, cfg(3, 5, 2, f, 2, 4, False, "VIEW View\nINVARIANT " + w, spec="Spec")),
                   workers=4, timeout=600, expect_violation=w, tag="c10w")
@@ -63,16 +69,16 @@ def model_check(res, tier):
 def generate(tier, rng):
     scen = []
     num = 40 if tier == "quick" else 1200
-    for (r, ln, pk, nf) in ((3, 5, 2, 2), (4, 9, 3, 2), (5, 12, 1, 4)):
+    for (r, ln, pk, nf) in ((3, 5, 2, 2), (4, 9, 3, 2), (5, 12, 1, 4), (3, 0, 2, 2), (3, 1, 2, 2)):
         for f in range(0, 6 if tier == "quick" else 9):
             base = cfg(r, ln, pk, f, nf, 10, True, "  D = 30\nCONSTRAINT Bound\nINVARIANT Dump\n")
-            bs = tlc_generate("Gen_Decoder.tla", write_cfg("Gen_Decoder_%d_%d.cfg" % (r, f), base), "sim", num=num, depth=31,
+            bs = tlc_generate("Gen_Decoder.tla", write_cfg("Gen_Decoder_%d_%d_%d.cfg" % (r, ln, f), base), "sim", num=num, depth=31,
                               timeout=900, tag="c10g")
             for b in bs:
                 scen.append({"r": r, "len": ln, "pk": pk, "fail": f, "nf": nf, "src": "tlc-sim", "steps": b})
     # seeded random schedules on longer streams
     for k in range(60 if tier == "quick" else 2500):
-        ln = rng.choice([6, 10, 17, 30])
+        ln = rng.choice([6, 10, 17, 30, 0, 1, 2])
         r = rng.choice([3, 4, 6, 8])
         steps = [{"act": "Play", "rejected": rng.random() < 0.15}]
         if steps[0]["rejected"]:
@@ -83,7 +89,7 @@ def generate(tier, rng):
                          {"act": rng.choice(["Stop", "Pop", "Pop", "Discard"])} if x < 0.96 else {"act": "DStep"})
         steps += [{"act": "Callback"}, {"act": "Pop"}, {"act": "Callback"}, {"act": "Callback"}]
         scen.append({"r": r, "len": ln, "pk": rng.choice([1, 2, 3, 5]), "fail": rng.choice([0, 0, 1, 2, 3, 4, 6, 9]),
-                     "nf": rng.choice([1, 2, 4]), "src": "random", "steps": steps})
+                     "nf": rng.choice([1, 2, 4]), "src": "random", "eos": 2 if k % 10 == 9 else 1, "steps": steps})
     return scen
 
 
